@@ -398,7 +398,7 @@ def model_histories(items, violations) -> Tuple[int, int]:
     files = []
     for k in range(0, len(lines), per):
         chunk = lines[k:k + per]
-        path = os.path.join(GEN, f"cases_C20_{k // per}.v")
+        path = os.path.join(GEN, f"cases_C20_p{os.getpid()}_{k // per}.v")
         body = [HEADER.replace("Corr.Check.", "Corr.Check Model.Cache."), orc.coq(), "Goal True.\n"]
         for i, (lhs, rhs, _) in enumerate(chunk):
             body.append(f"  chk_eq {i}%nat {lhs} {rhs}.\n")
